@@ -150,7 +150,12 @@ func (s *sess) startRepl() {
 	if s.r.Plan.C("repl") != 1 {
 		return
 	}
-	st := &replState{watch: "/w", target: "/backup", targetSig: 0x7a7a7a}
+	// the target directory's name is longer than, as long as, or (nested) much longer than the watched one
+	target := "/backup"
+	if t := s.r.Plan.CS("target"); t != "" {
+		target = t
+	}
+	st := &replState{watch: "/w", target: target, targetSig: 0x7a7a7a}
 	st.rec1 = &recSink{name: "filer", dir: st.target, tree: map[string]recEntry{}, targetSig: st.targetSig}
 	st.rec2 = &recSink{name: "filer", dir: st.target, tree: map[string]recEntry{}, targetSig: st.targetSig}
 	st.loc1Dir = filepath.Join(s.r.Dir, "sink1")
